@@ -1,9 +1,18 @@
 package otr3
 
+// the longest question that fits into an SMP TLV next to its terminator, the MPI count and six
+// MPIs of at most 192 bytes
+const maxSMPQuestionLength = 0xffff - 1 - 4 - 6*(4+192)
+
 // StartAuthenticate should be called when the user wants to initiate authentication with a peer.
 // The authentication uses an optional question message and a shared secret. The authentication will proceed
 // until the event handler reports that SMP is complete, that a secret is needed or that SMP has failed.
 func (c *Conversation) StartAuthenticate(question string, mutualSecret []byte) ([]ValidMessage, error) {
+	if len(question) > maxSMPQuestionLength {
+		// the question travels in a TLV, whose length field has 16 bits
+		return nil, newOtrError("question too long for a TLV")
+	}
+
 	c.smp.ensureSMP()
 
 	tlvs, err := c.smp.state.startAuthenticate(c, question, mutualSecret)
